@@ -302,7 +302,9 @@ class Spec(PropSpec):
             "applications keep pumping; deterministic 'bidi' family: one lost request / FIN while the opposite direction streams "
             "a heartbeat every round (the lost segment must be retransmitted at the retx_threshold-th pass whatever the peer "
             "sends); deterministic 'fin_ack_lost' family: half-close, the ACK of the FIN lost, the FIN receiver silent for more "
-            "than the whole retransmit budget, then answers (every FIN copy must be re-ACKed, nobody aborted). Non-trivial = at least one fault hit a real packet and data was read; "
+            "than the whole retransmit budget, then answers (every FIN copy must be re-ACKed, nobody aborted); 'blocked_writer': "
+            "receive cap 16 < transfer, the writer parked behind the closed window with bytes queued, the peer writes back and "
+            "reads only after the whole budget, no loss (loopback and two hosts). Non-trivial = at least one fault hit a real packet and data was read; "
             "distinct = distinct (cfg, script)")
     assumptions = [
         "theorems are stated on the connection-level system `cstep` built from the same per-TCB functions as the kernel model (c06_kernel_uses_tcb_on_conn); the kernel model is what the correspondence checks against the implementation",
@@ -327,7 +329,7 @@ class Spec(PropSpec):
         n = 360 if ctx.tier == "quick" else 3000
         if ctx.escalate:
             n *= 2
-        cases = list(F.exhaustive_single_faults()) + F.bidi_cases() + F.wrap_cases() + F.fin_ack_lost_cases()
+        cases = list(F.exhaustive_single_faults()) + F.bidi_cases() + F.wrap_cases() + F.fin_ack_lost_cases() + F.blocked_writer_cases()
         if ctx.tier != "quick":
             cases += F.exhaustive_single_faults(retx_threshold=1, retx_max=3)
         for i in range(n):
